@@ -341,6 +341,9 @@ func guardedByCall(in ssa.Instruction, want bool, pred func(*ssa.Call) bool) boo
 // calleeName: the static callee's (or invoked method's) bare name, "" when dynamic.
 func calleeName(ci ssa.CallInstruction) string {
 	if f := ci.Common().StaticCallee(); f != nil {
+		if a, isA := fnAlias[f]; isA {
+			return a[strings.LastIndex(a, ".")+1:] // recorded name of a renamed function (anchors.go)
+		}
 		return f.Name()
 	}
 	return invokeName(ci)
